@@ -13,6 +13,13 @@ H2  PT-TEMPO (real PtTempoBackend.initialize/compute_step/update_process_tensor)
     directly into a FileProcessTensor vs. into a SimpleProcessTensor on the same symbolic
     influences: same tensors/caps/meta data, same dynamics, also after close + re-import.
 
+H2/pt_tempo_init_*  the same, with both process tensors created by the REAL
+    PtTempo._init_simple_process_tensor / _init_file_process_tensor from a complex bath unitary.
+H3  PtTempo._init_file_process_tensor vs _init_simple_process_tensor on a SYMBOLIC complex bath
+    unitary W: same transforms (and their documented action), dt, dimension, name, description,
+    also after close + re-import; W = 1 -> no transforms.
+H4  name / description assigned after construction reach the file (re-import 'file'/'simple').
+
 In sym/frac mode the module globals `h5py` and `os` of oqupy.process_tensor are the stand-in;
 in real mode (stub validation, replay of counterexamples) the same harness runs on the REAL
 h5py in a temporary directory.
@@ -495,6 +502,60 @@ def _unitary_transforms(inp, which):
     return inp.const(tin), inp.const(tout)
 
 
+ENV_PT = {"noconj": False, "np_proxy_modules": ("oqupy.process_tensor", "oqupy.pt_tempo"), "extra": dict(h5stub.ENV_EXTRA)}
+
+
+def bath_unitary(inp, which):
+    """the bath's `unitary_transform` W handed to PtTempo._init_*_process_tensor"""
+    dt = complex if inp.mode == "real" else object
+    if which == "su2":
+        # generic complex (not real-symmetric) matrix of SU(2) shape; the claims made with it are
+        # polynomial identities in a, b (no normalisation needed: both objects get the same W)
+        a, b = inp.cplx("a"), inp.cplx("b")
+        return np.array([[a, -b.conjugate()], [b, a.conjugate()]], dtype=dt)
+    if which == "gen":
+        return inp.arr("W", (2, 2), cplx=True)
+    if which == "cunit":
+        # exact complex unitary that is neither real nor symmetric: a = (1+2i)/3, b = 2/3
+        a, b = (1 + 2j) / 3, 2.0 / 3
+        return inp.const(np.array([[a, -b], [b, a.conjugate()]]))
+    if which == "sy":
+        # eigenbasis of sigma_y (columns (1, i)/sqrt2, (1, -i)/sqrt2)
+        r = 1 / np.sqrt(2.0)
+        return inp.const(np.array([[r, r], [1j * r, -1j * r]]))
+    raise ValueError(which)
+
+
+class PtTempoShell:
+    """A PtTempo object created with PtTempo.__new__ carrying exactly the attributes that the
+    REAL PtTempo._init_simple_process_tensor / _init_file_process_tensor read (bath unitary,
+    dimension, parameters.dt, name, description)."""
+
+    def __init__(self, W, d=2, dt=0.1, name="pt", description="descr"):
+        import oqupy.base_api
+        import oqupy.pt_tempo as ptmod
+        p = ptmod.PtTempo.__new__(ptmod.PtTempo)
+        oqupy.base_api.BaseAPIClass.__init__(p, name, description)
+
+        class Bath_:
+            unitary_transform = W
+
+        class Par_:
+            pass
+        Par_.dt = dt
+        p._bath, p._dimension, p._parameters = Bath_(), d, Par_()
+        p._process_tensor = None
+        self.p = p
+
+    def simple(self):
+        self.p._init_simple_process_tensor()
+        return self.p._process_tensor
+
+    def file(self, filename, overwrite=False):
+        self.p._init_file_process_tensor(filename, overwrite)
+        return self.p._process_tensor
+
+
 class H2(Case):
     functions = ("PtTempoBackend.initialize", "PtTempoBackend.compute_step", "PtTempoBackend.update_process_tensor",
                  "FileProcessTensor.set_mpo_tensor", "FileProcessTensor.compute_caps", "SimpleProcessTensor.compute_caps",
@@ -505,10 +566,19 @@ class H2(Case):
     env = ENV
     real_env = {}
 
-    def __init__(self, N, K, transforms=None, reimport=("file", "simple"), named_file=True):
+    def __init__(self, N, K, transforms=None, reimport=("file", "simple"), named_file=True, via_init=None):
         self.N, self.K, self.transforms, self.reimport, self.named_file = N, K, transforms, reimport, named_file
+        self.via_init = via_init
         self.id = "H2/pt_tempo_file_N%d_K%s_%s%s" % (N, K, transforms or "notr", "" if named_file else "_tmpfile")
         self.bounds = {"d": 2, "N": N, "dkmax": K, "transforms": str(transforms)}
+        if via_init:
+            # both process tensors are created by the REAL PtTempo._init_simple_process_tensor /
+            # _init_file_process_tensor from the bath unitary `via_init`
+            self.id = "H2/pt_tempo_init_%s_N%d_K%s%s" % (via_init, N, K, "" if named_file else "_tmpfile")
+            self.bounds = {"d": 2, "N": N, "dkmax": K, "bath_unitary": via_init}
+            self.env = ENV_PT
+            self.functions = H2.functions + ("PtTempo._init_simple_process_tensor", "PtTempo._init_file_process_tensor",
+                                             "operators.left_right_super")
         self.timeout_s = 600
 
     def run(self, inp):
@@ -519,7 +589,11 @@ class H2(Case):
                 tin, tout = _unitary_transforms(inp, self.transforms)
             infl = lib.Influences(inp, d, K)
 
+            shell = PtTempoShell(bath_unitary(inp, self.via_init)) if self.via_init else None
+
             def simple():
+                if shell is not None:
+                    return shell.simple()
                 return ptm.SimpleProcessTensor(hilbert_space_dimension=d, dt=0.1, transform_in=tin, transform_out=tout,
                                                name="pt", description="descr")
             # run 1: in memory
@@ -527,8 +601,11 @@ class H2(Case):
             pt_tempo(infl, N, K, d, mem)
             # run 2: the same computation writing directly into a file
             fn = ws.path("pt.hdf5") if self.named_file else None
-            fpt = ptm.FileProcessTensor(mode="write", filename=fn, hilbert_space_dimension=d, dt=0.1, transform_in=tin,
-                                        transform_out=tout, name="pt", description="descr")
+            if shell is not None:
+                fpt = shell.file(fn, overwrite=False)
+            else:
+                fpt = ptm.FileProcessTensor(mode="write", filename=fn, hilbert_space_dimension=d, dt=0.1, transform_in=tin,
+                                            transform_out=tout, name="pt", description="descr")
             fn = fpt.filename
             closed = False
             imp = None
@@ -555,6 +632,12 @@ class H2(Case):
                 obs += compare("file-backed", mem2, fpt, N)
                 if inp.mode != "real":
                     obs += compare("file-backed vs separate in-memory run", mem, fpt, N)
+                # name / description assigned AFTER construction must reach the file as well
+                for o in (mem, mem2, fpt):
+                    o.description = "a new description"
+                    o.name = "renamed"
+                obs.append(Ob.holds("file-backed: name/description after assignment",
+                                    fpt.name == "renamed" and fpt.description == "a new description"))
                 fpt.close()
                 closed = True
                 for kind in self.reimport:
@@ -581,6 +664,133 @@ class H2(Case):
         return reduce_sqrt(inp, concretise_frac(inp, obs))
 
 
+class H3(Case):
+    """PtTempo chooses a file-backed or an in-memory process tensor: the REAL
+    PtTempo._init_file_process_tensor(filename, overwrite) and PtTempo._init_simple_process_tensor()
+    must build the same object (transforms from the bath's unitary, dt, dimension, name,
+    description) for a symbolic complex bath unitary W; W = 1 gives no transforms in both."""
+    functions = ("PtTempo._init_simple_process_tensor", "PtTempo._init_file_process_tensor", "operators.left_right_super",
+                 "FileProcessTensor.__init__", "FileProcessTensor._create_file", "FileProcessTensor._read_file", "import_process_tensor")
+    stubs = h5stub.STUB_TEXT
+    env = ENV_PT
+    real_env = {}
+
+    def __init__(self, which, overwrite=False, named=True):
+        self.which, self.overwrite, self.named = which, overwrite, named
+        self.id = "H3/pt_tempo_init_transforms_%s%s%s" % (which, "_ow" if overwrite else "", "" if named else "_tmpfile")
+        self.bounds = {"d": 2, "bath_unitary": which, "overwrite": overwrite}
+
+    def run(self, inp):
+        from oqupy.operators import left_right_super
+        d = 2
+        obs = []
+        with Workspace(inp) as ws:
+            W = bath_unitary(inp, self.which) if self.which != "identity" else inp.const(np.identity(2))
+            shell = PtTempoShell(W, dt=0.25, name="the name", description="the description")
+            mem = shell.simple()
+            fn = ws.path("pt.hdf5") if self.named else None
+            if self.overwrite:
+                old, _, _ = build_pt(inp, "o", d, 1, 1, 4, False, dt=0.5)
+                old.export(fn)
+            fpt = shell.file(fn, overwrite=self.overwrite)
+            fn = fpt.filename
+            try:
+                def meta(tag, x):
+                    out = [Ob.holds(tag + " dt", x.dt is not None and float(x.dt) == 0.25),
+                           Ob.holds(tag + " hilbert_space_dimension", x.hilbert_space_dimension == d),
+                           Ob.holds(tag + " name/description", x.name == "the name" and x.description == "the description")]
+                    for nm in ("transform_in", "transform_out"):
+                        a, b = getattr(mem, nm), getattr(x, nm)
+                        out.append(Ob.holds(tag + " %s None-ness" % nm, (a is None) == (b is None)))
+                        if a is not None and b is not None:
+                            out.append(Ob.eq(tag + " %s == in-memory object's" % nm, b, a))
+                    return out
+                obs.append(Ob.holds("file-backed object created", isinstance(fpt, ptm.FileProcessTensor) and ws.exists(fn)))
+                obs += meta("file-backed", fpt)
+                if self.which == "identity":
+                    obs.append(Ob.holds("no transforms for the identity", mem.transform_in is None and mem.transform_out is None))
+                elif mem.transform_in is not None:
+                    # documented meaning (BaseProcessTensor.transform_in/out): system basis -> PT basis
+                    # (rho -> W^dagger rho W) and back (rho -> W rho W^dagger), stored transposed
+                    Wd = W.conjugate().T
+                    v = inp.arr("v", (d, d), cplx=True)
+                    for tag, x in (("in-memory", mem), ("file-backed", fpt)):
+                        if x.transform_in is not None and x.transform_out is not None:
+                            obs.append(Ob.eq(tag + " transform_in acts as rho -> W^dagger rho W",
+                                             x.transform_in.T.dot(v.reshape(-1)), (Wd @ v @ W).reshape(-1)))
+                            obs.append(Ob.eq(tag + " transform_out acts as rho -> W rho W^dagger",
+                                             x.transform_out.T.dot(v.reshape(-1)), (W @ v @ Wd).reshape(-1)))
+                fpt.set_mpo_tensor(0, inp.arr("M", (1, 1, 4)))
+                fpt.close()
+                for kind in ("file", "simple"):
+                    imp, _ = _import(fn, kind)
+                    obs += meta("re-import " + kind, imp)
+                    if isinstance(imp, ptm.FileProcessTensor):
+                        imp.close()
+            finally:
+                try:
+                    fpt.close()
+                except Exception:  # noqa
+                    pass
+                if not self.named and ws.exists(fn):
+                    import os
+                    (os.remove if ws.real else h5stub.OS.remove)(fn)
+        return obs
+
+
+class H4(Case):
+    """name / description assigned to a file-backed process tensor AFTER construction (and to an
+    in-memory one before export) are the ones a re-import returns"""
+    functions = ("FileProcessTensor.name", "FileProcessTensor.description", "FileProcessTensor._create_file",
+                 "FileProcessTensor._read_file", "import_process_tensor", "SimpleProcessTensor.export")
+    stubs = h5stub.STUB_TEXT
+    env = ENV
+    real_env = {}
+    ORDERS = {"name_then_description": ("name", "description"), "description_then_name": ("description", "name"),
+              "description_only": ("description",), "name_only": ("name",), "twice": ("name", "description", "description", "name")}
+
+    def __init__(self, order, initial=True):
+        self.order, self.initial = order, initial
+        self.id = "H4/meta_assigned_later_%s%s" % (order, "" if initial else "_unnamed_at_creation")
+        self.bounds = {"assignments": list(self.ORDERS[order]), "named_at_creation": initial}
+
+    def run(self, inp):
+        d = 2
+        obs = []
+        with Workspace(inp) as ws:
+            fn = ws.path("pt.hdf5")
+            kw = {"name": "first name", "description": "first description"} if self.initial else {}
+            fpt = ptm.FileProcessTensor(mode="write", filename=fn, hilbert_space_dimension=d, dt=0.1, **kw)
+            mem = ptm.SimpleProcessTensor(hilbert_space_dimension=d, dt=0.1, **kw)
+            M, c0, c1 = inp.arr("M", (1, 1, 4)), inp.arr("c0", (1,)), inp.arr("c1", (1,))
+            for o in (fpt, mem):
+                o.set_mpo_tensor(0, M)
+                o.set_cap_tensor(0, c0)
+                o.set_cap_tensor(1, c1)
+            count = {"name": 0, "description": 0}
+            for what in self.ORDERS[self.order]:
+                count[what] += 1
+                for o in (fpt, mem):
+                    setattr(o, what, "%s no. %d" % (what, count[what]))
+            obs.append(Ob.holds("file-backed object: name/description as assigned", fpt.name == mem.name and fpt.description == mem.description))
+            fpt.close()
+            for kind in ("file", "simple"):
+                imp, _ = _import(fn, kind)
+                work_around_known_initial_tensor_defect(mem, imp)
+                obs += compare("file-backed, re-import " + kind, mem, imp, 1)
+                if isinstance(imp, ptm.FileProcessTensor):
+                    imp.close()
+            fn2 = ws.path("exported.hdf5")
+            mem.export(fn2)
+            for kind in ("file", "simple"):
+                imp, _ = _import(fn2, kind)
+                work_around_known_initial_tensor_defect(mem, imp)
+                obs += compare("exported, re-import " + kind, mem, imp, 1)
+                if isinstance(imp, ptm.FileProcessTensor):
+                    imp.close()
+        return obs
+
+
 def pt_tempo(infl, N, K, d, pt):
     """real PtTempoBackend.initialize / compute_step / update_process_tensor -> the backend"""
     from oqupy.backends.pt_tempo_backend import PtTempoBackend
@@ -602,7 +812,9 @@ def cases(tier):
            H1("file", 3, 2, 4, False, "sym"), H1("simple", 3, 2, 3, True, "sym", named=False),
            H1("file", 3, 2, 3, False, "c", overwrite=True), H1("simple", 3, 2, 4, False, "none")]
     cs += [H1Init("none_simple"), H1Init("value_simple"), H1Init("value_set")]
-    cs += [H2(2, None), H2(3, 1), H2(2, None, "real", named_file=False)]
+    cs += [H2(2, None), H2(3, 1), H2(2, None, "real", named_file=False), H2(2, None, via_init="cunit")]
+    cs += [H3("su2"), H3("gen", overwrite=True), H3("identity", named=False), H3("sy")]
+    cs += [H4("name_then_description"), H4("description_then_name"), H4("description_only", initial=False)]
     if tier == "thorough":
         for kind in ("file", "simple"):
             for N in (1, 2, 3):
@@ -615,6 +827,8 @@ def cases(tier):
                             if not any(c.id == x.id for x in cs):
                                 cs.append(c)
         cs += [H1("file", 3, 1, 4, True, "c"), H1("simple", 3, 1, 3, False, "c")]
+        cs += [H2(3, 1, via_init="sy"), H2(3, None, via_init="cunit", named_file=False), H3("su2", named=False), H3("cunit", overwrite=True),
+               H4("name_only"), H4("twice"), H4("description_only"), H4("name_then_description", initial=False)]
         cs += [H2(3, None), H2(3, 2, "real"), H2(2, 1, "complex"), H2(3, None, "complex", named_file=False), H2(4, 2)]
     return cs
 
